@@ -9,6 +9,7 @@ mod commands;
 use commands::{BrokerCommands, Commands, OutputFormat};
 use schemars::schema_for;
 use std::fs;
+use std::io::Write;
 
 #[derive(Parser)]
 #[command(author, version, about, long_about = None)]
@@ -54,7 +55,7 @@ fn main() -> Result<()> {
         Commands::Parse { files, schema } => {
             if *schema {
                 let schema = schema_for!(Vec<Transaction>);
-                println!("{}", serde_json::to_string_pretty(&schema)?);
+                writeln!(std::io::stdout(), "{}", serde_json::to_string_pretty(&schema)?)?;
                 return Ok(());
             }
 
@@ -62,7 +63,7 @@ fn main() -> Result<()> {
                 let content = read_and_concatenate_files(files)?;
                 let transactions = parse_file(&content)?;
                 let json = serde_json::to_string_pretty(&transactions)?;
-                println!("{}", json);
+                writeln!(std::io::stdout(), "{}", json)?;
             }
         }
         Commands::Report {
@@ -94,7 +95,7 @@ fn main() -> Result<()> {
                     if let Some(path) = output {
                         fs::write(path, content)?;
                     } else {
-                        print!("{}", content);
+                        write!(std::io::stdout(), "{}", content)?;
                     }
                 }
                 OutputFormat::Json => {
@@ -102,7 +103,7 @@ fn main() -> Result<()> {
                     if let Some(path) = output {
                         fs::write(path, content)?;
                     } else {
-                        println!("{}", content);
+                        writeln!(std::io::stdout(), "{}", content)?;
                     }
                 }
                 OutputFormat::Pdf => {
@@ -130,7 +131,11 @@ fn main() -> Result<()> {
                     }
 
                     fs::write(&output_path, pdf_bytes)?;
-                    println!("PDF written to {}", output_path.display());
+                    writeln!(
+                        std::io::stdout(),
+                        "PDF written to {}",
+                        output_path.display()
+                    )?;
                 }
             }
         }
@@ -169,7 +174,7 @@ fn main() -> Result<()> {
                     if let Some(output_path) = output {
                         fs::write(output_path, &result.cgt_content)?;
                     } else {
-                        println!("{}", result.cgt_content);
+                        writeln!(std::io::stdout(), "{}", result.cgt_content)?;
                     }
                 }
             }
